@@ -546,6 +546,21 @@ theorem C05_id_keyed_unpinned :
 /-- the code as it is keeps the pin (flag regenerated from pony/utils/utils.py) -/
 theorem C05_codeobjects_pinned : CacheKeys.codeobjectsPinned = true := by decide
 
+/-! ### the refinement label in the translator key -/
+
+/-- `apply_lambda` reads `order_by` and the effective `original_names`; the `func_id` in the same key entry fixes whether the lambda
+    has arguments.  For every two ways `filter` / `where` / `order_by` can reach `_process_lambda` with the SAME kind of lambda, an
+    equal label means equal `(order_by, original_names)`: the label (with `func_id`) determines what `apply_lambda` is called with.
+    (Rows regenerated from the source by evaluating the label expression.) -/
+theorem C05_lambda_label_separates :
+    ∀ a ∈ CacheKeys.lambdaLabels, ∀ b ∈ CacheKeys.lambdaLabels,
+      a.1 = b.1 → a.2.2.2 = b.2.2.2 → a.2.1 = b.2.1 ∧ a.2.2.1 = b.2.2.1 := by decide
+
+/-- a label that lets an argument-less `order_by` expression share its entry with `filter` / `where` is not transparent -/
+theorem C05_lambda_label_collision_breaks :
+    ¬ (∀ a ∈ [(false, true, true, 1), (false, false, true, 1)], ∀ b ∈ [((false, true, true, 1) : Bool × Bool × Bool × Nat), (false, false, true, 1)],
+      a.1 = b.1 → a.2.2.2 = b.2.2.2 → a.2.1 = b.2.1 ∧ a.2.2.1 = b.2.2.1) := by decide
+
 /-! ### pinned parameters must be recorded where the re-check looks -/
 
 /-- a translator that bakes in a parameter it does not record in the root's `fixed_param_values` (a bound pinned inside a nested
